@@ -795,6 +795,32 @@ V("c07-twin-unify-token-renamed", "C07", "-", "dask_array/_blockwise.py", None, 
   ("dask_array/_blockwise.py", "_tokenize_deterministic(type(self), *self._unify_token, *self.operands)", "_tokenize_deterministic(type(self), *self._planner_token, *self.operands)"),
   ("dask_array/_blockwise.py", "                    type(self), *self._unify_token, *(token_or_identity(o) for o in self.operands)", "                    type(self), *self._planner_token, *(token_or_identity(o) for o in self.operands)"),
 ])
+# ---------------------------------------------------------------------------- C22
+V("c22-wrapper-passes-extra-argument", "C22", "R22.1", "dask_array/_frisky/creation.py",
+  "        self._rust = _rust.CreationLayer(name, func, kwargs or {}, chunks)", "        self._rust = _rust.CreationLayer(name, func, kwargs or {}, chunks, None)", expect="CreationLayer")
+V("c22-wrapper-drops-argument", "C22", "R22.1", "dask_array/_frisky/squeeze.py",
+  "            list(numblocks),\n            input_ndim,\n", "            list(numblocks),\n", expect="SqueezeLayer")
+V("c22-wrapper-unknown-keyword", "C22", "R22.1", "dask_array/_frisky/creation.py",
+  "        self._rust = _rust.CreationLayer(name, func, kwargs or {}, chunks)", "        self._rust = _rust.CreationLayer(name, func, kwargs or {}, chunk_sizes=chunks)", expect="CreationLayer")
+V("c22-rust-constructor-gains-parameter", "C22", "R22.1", "crates/dask-array-python/src/squeeze.rs",
+  "        input_ndim: usize,\n        axis_set: Vec<usize>,\n    ) -> Self {", "        input_ndim: usize,\n        axis_set: Vec<usize>,\n        keepdims: bool,\n    ) -> Self {", expect="SqueezeLayer")
+V("c22-rust-class-not-registered", "C22", "R22.1", "crates/dask-array-python/src/lib.rs",
+  "    m.add_class::<squeeze::SqueezeLayer>()?;\n", "", expect="SqueezeLayer")
+V("c22-rust-method-renamed", "C22", "R22.2", "crates/dask-array-python/src/stack.rs",
+  "    fn to_task_records<'py>(&self, py: Python<'py>)", "    fn to_records<'py>(&self, py: Python<'py>)", expect="StackLayer")
+V("c22-wrapper-keeps-native-object-elsewhere", "C22", "R22.2", "dask_array/_frisky/creation.py",
+  "        self._rust = _rust.CreationLayer(name, func, kwargs or {}, chunks)", "        self._native = _rust.CreationLayer(name, func, kwargs or {}, chunks)", expect="CreationLayer")
+V("c22-signature-gains-required-parameter", "C22", "R22.1", "crates/dask-array-python/src/from_array.rs", None, None, expect="FromArrayGetterLayer", edits=[
+  ("crates/dask-array-python/src/from_array.rs", "    #[pyo3(signature = (name, array, getitem, dims, inline_array, extra_args=None))]", "    #[pyo3(signature = (name, array, getitem, dims, inline_array, extra_args, region))]"),
+  ("crates/dask-array-python/src/from_array.rs", "        inline_array: bool,\n        extra_args: Option<(bool, bool)>,\n    ) -> Self {", "        inline_array: bool,\n        extra_args: Option<(bool, bool)>,\n        region: Vec<(i64, i64)>,\n    ) -> Self {"),
+])
+V("c22-twin-signature-default-dropped-but-always-passed", "C22", "-", "crates/dask-array-python/src/from_array.rs",
+  "    #[pyo3(signature = (name, array, getitem, dims, inline_array, extra_args=None))]", "    #[pyo3(signature = (name, array, getitem, dims, inline_array, extra_args))]", twin=True)
+V("c22-twin-wrapper-uses-keywords", "C22", "-", "dask_array/_frisky/creation.py",
+  "        self._rust = _rust.CreationLayer(name, func, kwargs or {}, chunks)", "        self._rust = _rust.CreationLayer(name, func, kwargs=kwargs or {}, chunks=chunks)", twin=True)
+V("c22-twin-rust-comment-with-braces", "C22", "-", "crates/dask-array-python/src/squeeze.rs",
+  "        input_ndim: usize,\n        axis_set: Vec<usize>,\n    ) -> Self {", "        input_ndim: usize, // } fn new(oops: {\n        axis_set: Vec<usize>, /* #[new] fn other(a: u8) { */\n    ) -> Self {\n        let _note = \"fn fake(x: i32) {\";", twin=True)
+
 V("c02-detector-uses-forward-permutation", "C02", "R02.6", "dask_array/_blockwise.py",
   "        inv = expr._inverse_axes\n        dep_mapping = tuple(parent_mapping[inv[i]] for i in range(len(inv)))", "        dep_mapping = tuple(parent_mapping[ax] for ax in expr.axes)", expect="_symbolic_mapping")
 V("c02-twin-detector-local-rename", "C02", "-", "dask_array/_blockwise.py",
